@@ -2,7 +2,10 @@ module gosym
 
 go 1.24.0
 
-require golang.org/x/tools v0.29.0
+require (
+	golang.org/x/tools v0.29.0
+	sigs.k8s.io/yaml v1.4.0
+)
 
 require (
 	golang.org/x/mod v0.22.0 // indirect
